@@ -123,9 +123,13 @@ impl ActTask for Act {
                     task.set_state(TaskState::Completed);
                 }
 
-                if let Some(next) = &task.node.next().upgrade() {
-                    ctx.sched_task(next);
-                    return Ok(true);
+                // an act that is completed from outside (sub-process call) is still open here:
+                // its successor starts when it returns
+                if task.state().is_completed() {
+                    if let Some(next) = &task.node.next().upgrade() {
+                        ctx.sched_task(next);
+                        return Ok(true);
+                    }
                 }
             }
         } else if state.is_skip() || state.is_success() {
